@@ -7,11 +7,15 @@ HERE = os.path.dirname(os.path.abspath(__file__))
 
 CLAIMS = {
     'C01': ('path-sensitive abstract interpretation of the motion handlers (suppression dominance, episode quiet, '
-            'tracking) + exhaustive walk of the sample/region loops',
+            'tracking against the exact firmware reference, including arcs that are not handed on) + exhaustive walk of the '
+            'sample/region loops; frame conditions of the AxisPosition mutators (C08.R8), arc sampling (C16), region geometry '
+            '(C17) and the word tokeniser (C19) as premises',
             'decides the structure of suppression; region geometry (C17) and unit algebra (C08) are separate; '
             'floating point is treated as real arithmetic'),
     'C02': ('inductive invariant over all handler paths of the abstract interpreter: outside an episode with no owed '
-            'recovery and no destination inside a region every code is returned as None or exactly [cmd]',
+            'recovery and no destination inside a region every code is returned as None or exactly [cmd]; the tracked position '
+            'is the firmware\'s after every move and every executed arc (also while exclusion is disabled); frame conditions of '
+            'the AxisPosition mutators (C08.R8) as premise',
             'complete over the finite abstraction (booleans, orderings, provenance); "inside a region" is the abstract '
             'outcome of containsPoint'),
     'C03': ('abstract interpretation of exitExcludedRegion / entering paths with numbers in polynomial normal form: '
@@ -22,7 +26,8 @@ CLAIMS = {
     'C04': ('typestate analysis: the abstract paths of the handlers are the transition relation of a finite machine over '
             '(excluding, retraction record) x ghost printer (E-register offset, retracted length) x file state; the meaning of '
             'generated G92 E / G1 E pairs is derived from their polynomial values; exhaustive breadth-first exploration under '
-            'the environment of the quantifier; plus restore pairing and unit algebra of RetractionState._addCommands',
+            'the environment of the quantifier; plus restore pairing and unit algebra of RetractionState._addCommands; the C01 path '
+            'rules (what may reach the printer while an episode is open) as premises',
             'absolute E mode, equal-length E-only or firmware cycles; two recorded known findings (dropped retraction outside a '
             'region, owed recovery computed from the advanced E)'),
     'C05': ('the same typestate machine with the retraction-depth invariants (never deeper than one cycle, never shallower than '
@@ -30,7 +35,8 @@ CLAIMS = {
             'parameter provenance, regex language inclusion for the parameter extraction',
             'matched equal-length cycles, not mixed; retracting travel moves (wipes) are outside the quantifier'),
     'C06': ('abstract interpretation over an ordered-map domain of the defer/drain functions (all four modes x entry '
-            'present/absent), exit/enter composition, writer census of the pending map, aliasing of script lists',
+            'present/absent), exit/enter composition, writer census of the pending map (one slot per configured code: recorded '
+            'under the code itself), aliasing of script lists',
             'string content of merged commands is C07; OctoPrint settings plumbing trusted'),
     'C10': ('effect analysis: the set of state fields written on any abstract path of any hook is contained in the set '
             'resetState re-assigns with fresh values on all paths; print-started ordering; no global/class-level state; '
@@ -61,7 +67,8 @@ CLAIMS = {
             'float() versus firmware strtod trusted; at most two occurrences per letter in the handler analysis'),
     'C20': ('abstract interpretation of StreamProcessor.__init__ (heap reachability: no live object reachable, deep copy) '
             'and process_line over the result shapes of the handlers (mapping, EOL, byte-for-byte pass-through, stale reads '
-            'through the shared parser, flags of the command handed to the handlers)',
+            'through the shared parser, flags of the command handed to the handlers); census of class-level containers (none '
+            'changed in place unless owned per instance)',
             'handler result shapes from C09.R1; what OctoPrint passes to the live hook is assumed to be the stripped command'),
     'C11': ('abstract interpretation of on_event for every event constant x active flag x clear setting against the '
             'reference transition table; hooks with no active print return None without effects; writer census of the flag',
@@ -99,7 +106,7 @@ CLAIMS = {
             'round-off near borders are not decided; G92 law and relative-mode arcs are recorded known findings'),
     'C09': ('every abstract path of every handler: result shape None / IGNORE / non-empty list of non-empty commands; '
             'every partial operation (division, sqrt, index, None arithmetic, raise) forks an exceptional path that '
-            'must be infeasible under the sign/order facts of the path',
+            'must be infeasible under the sign/order facts of the path; hook arguments unknown (sub code: None, text or integer)',
             'homed axes; parser summary; finiteness of floats (known limitation, see DESIGN)'),
 }
 
